@@ -46,7 +46,20 @@ One == T0("Select", "e", "", 0, <<DSt, T0("Const", "int", "", 1, <<>>)>>)
 TreeCase(s) == T0("Root", s, "vpfile", 1, <<One, T0("Str", "a", "", 0, <<>>)>>)
 ColumnCase(s) == T0("Root", "a", "vpfile", 1, <<One, T0("Str", s, "", 0, <<>>)>>)
 
+\* several literals in ONE query, among them constants that compare equal in Python but are of different
+\* types (1 == 1.0 == True, 0 == 0.0 == False, 1000000 == 1000000.0): each column must still hold its own
+\* literal, with its own kind
+Pool == <<[kind |-> "int", text |-> "1"], [kind |-> "float", text |-> "1.0"], [kind |-> "bool", text |-> "True"],
+          [kind |-> "int", text |-> "0"], [kind |-> "float", text |-> "0.0"], [kind |-> "bool", text |-> "False"],
+          [kind |-> "int", text |-> "1000000"], [kind |-> "float", text |-> "1000000.0"], [kind |-> "float", text |-> "1.5"]>>
+LitOf(p) == T0("Lit", p.kind, p.text, 0, <<>>)
+TupleCase(ps) == T0("Select", "e", "", 0, <<DSt, T0("Tuple", "", "", Len(ps), [i \in DOMAIN ps |-> LitOf(ps[i])])>>)
+SameValue == {<<1, 2, 3>>, <<3, 2, 1>>, <<2, 1, 3>>, <<4, 5, 6>>, <<6, 4, 5>>, <<5, 6, 4>>}
+TupleCases == {[pos |-> "tuple", q |-> TupleCase(<<Pool[i], Pool[j]>>), support |-> "MUST_ACCEPT"] : i, j \in DOMAIN Pool}
+         \cup {[pos |-> "tuple", q |-> TupleCase([k \in 1..3 |-> Pool[t[k]]]), support |-> "MUST_ACCEPT"] : t \in SameValue}
+
 Cases ==
+     TupleCases \cup
      {[pos |-> "value", q |-> ValueCase(IntLits[i].kind, IntLits[i].text), support |-> IntLits[i].support] : i \in DOMAIN IntLits}
   \cup {[pos |-> "value", q |-> ValueCase("float", FloatLits[i].text), support |-> FloatLits[i].support] : i \in DOMAIN FloatLits}
   \cup {[pos |-> "value", q |-> ValueCase("bool", b), support |-> "MUST_ACCEPT"] : b \in {"True", "False"}}
